@@ -154,6 +154,7 @@ def run_trace(pid, module, cfg, trace_path, timeout_s=1800, xmx="4g"):
     res["_states"] = int(m.group(1)) if m else 0
     res["_distinct"] = int(m.group(2)) if m else 0
     res["_wall"] = time.time() - t
+    res["_spec"], res["_cfg"] = module, cfg
     res.setdefault("bad", [])
     res.setdefault("devs", [])
     return res
@@ -179,11 +180,14 @@ def scenario_slice(trace_path, scn, bad_line=None):
                 on = json.loads(line).get("scn") == scn
             if on:
                 tag = ">>> " if n == bad_line else ""
-                out.append(tag + line.rstrip("\n")[:3000])
+                out.append(tag + line.rstrip("\n"))
                 if bad_line and n > bad_line + 3:
                     break
+    # keep the replay file bounded: the first lines (configuration) and the lines leading to the rejection
     if len(out) > 400:
-        out = out[:40] + ["..."] + out[-340:]
+        out = out[:40] + out[-340:]
+    while sum(len(x) for x in out) > 4_000_000 and len(out) > 20:
+        out = out[:10] + out[len(out) // 2:]
     return out
 
 
@@ -223,7 +227,7 @@ class Verdict:
     def add_trace_result(self, part, res, run):
         """res: RESULT record of a trace spec; run: dict(trace=..., descr=...)."""
         for b in res.get("bad", []):
-            self.violations.append(dict(kind="trace", part=part, bad=b,
+            self.violations.append(dict(kind="trace", part=part, spec=res.get("_spec"), cfg=res.get("_cfg"), bad=b,
                                         descr=scenario_descr(run["descr"], b.get("scn")),
                                         events=scenario_slice(run["trace"], b.get("scn"), b.get("line"))))
         for d in res.get("devs", []):
@@ -263,6 +267,24 @@ class Verdict:
         return 1
 
 
+def replay_spec_side(replay):
+    """Re-validate the stored events of a replay file with the trace specification that rejected them."""
+    v = replay.get("violation", {})
+    if v.get("kind") != "trace" or not v.get("spec") or not v.get("events"):
+        log("replay: no stored trace to re-validate (model-level violation)")
+        return
+    path = os.path.join(workdir("replay"), "stored.ndjson")
+    with open(path, "w") as f:
+        for line in v["events"]:
+            f.write((line[4:] if line.startswith(">>> ") else line) + "\n")
+    res = run_trace("replay", v["spec"], v["cfg"], path)
+    if res["bad"]:
+        log(f"replay (specification side): the stored trace is still rejected by {v['spec']}: {res['bad'][0]['why']}")
+    else:
+        log(f"replay (specification side): the stored trace is now ACCEPTED by {v['spec']} (the specification changed, or the "
+            "rejected line is outside the stored window)")
+
+
 def write_evidence(pid, tier, seed, wall, coverage, violations, assumptions):
     d = os.path.join(VERIF, "evidence")
     os.makedirs(d, exist_ok=True)
@@ -270,6 +292,20 @@ def write_evidence(pid, tier, seed, wall, coverage, violations, assumptions):
               assumptions=assumptions, wall_s=round(wall, 2), violations=violations)
     with open(os.path.join(d, pid + ".json"), "w") as f:
         json.dump(ev, f, indent=1)
+    # one line per (property, tier) for the coverage table of DESIGN.md (bin/mkcoverage); the last
+    # run of each tier wins
+    try:
+        cd = os.path.join(VERIF, "coverage")
+        os.makedirs(cd, exist_ok=True)
+        c = coverage
+        row = dict(property_id=pid, tier=tier, seed=seed, wall_s=round(wall, 1), states=c.get("states"),
+                   transitions=c.get("transitions"), traces=c.get("traces_validated_against_impl"),
+                   nontrivial=c.get("distinct_nontrivial"), exhaustive_model=c.get("exhaustive_model"),
+                   model_runs=c.get("model_runs"), violations=violations if isinstance(violations, int) else len(violations))
+        with open(os.path.join(cd, "%s.%s.json" % (pid, tier)), "w") as f:
+            json.dump(row, f, indent=1)
+    except Exception:  # never let bookkeeping change a verdict
+        pass
 
 
 def sample_descrs(descr_path, k=4):
